@@ -73,7 +73,10 @@ func (m *MemStore) counts() (int, int) { m.mu.Lock(); defer m.mu.Unlock(); retur
 func (m *MemStore) damage(key []byte, class string) {
 	m.mu.Lock()
 	defer m.mu.Unlock()
-	v := m.rows[string(key)]
+	v, ok := m.rows[string(key)]
+	if !ok {
+		return
+	}
 	switch class {
 	case "drop":
 		delete(m.rows, string(key))
@@ -299,10 +302,15 @@ func runChainStore(t *testing.T, beh CSBehaviour, idx int, rep *vh.Report, dir s
 	}
 	defer tw.gate.ReleaseAll()
 	kinds := map[string]bool{}
+	diverged := false
 	viol := func(n int, fp, what string) {
+		diverged = true // once implementation and specification disagree the rest of the behaviour has no meaning
 		rep.Violate("chainstore:"+fp, what, map[string]any{"behaviour": CSBehaviour{beh.Cap, beh.Steps[:n+1]}, "step": n})
 	}
 	for n, s := range beh.Steps {
+		if diverged {
+			break
+		}
 		kinds[fmt.Sprintf("%s/%d/%s", s.Op, s.Reply.Status, s.Args.Fault)] = true
 		switch s.Op {
 		case "Submit":
@@ -399,7 +407,8 @@ func runChainStore(t *testing.T, beh CSBehaviour, idx int, rep *vh.Report, dir s
 		case "CacheSetFires":
 			key, ok := tw.keys[s.Args.Chain]
 			if !ok {
-				t.Fatalf("no storage key known for chain %s", s.Args.Chain)
+				viol(n, "cachesetfires:never-stored", "the specification expects a detached cache.Set for chain "+s.Args.Chain+" but that chain was never handed to the storage")
+				continue
 			}
 			if err := tw.gate.Fire(key); err != nil {
 				viol(n, "cachesetfires:missing", "the specification expects a detached cache.Set for chain "+s.Args.Chain+" but none arrived: "+err.Error())
